@@ -10,7 +10,7 @@ extern "C" {
 void __vf_draw_mode(int m); // 0: fresh draws, recorded; 1: replay the recorded draws from the start
 }
 // C18: c1 gets the range call, c2 the same elements as single calls in order, at the same instant
-static inline void range_vs_singles(C& c1, C& c2, int rmethod, const Ev* e, size_t n, uint8_t al, bool pk_in)
+static inline void range_vs_singles(C& c1, C& c2, int rmethod, const Ev* e, size_t n, uint8_t al, bool pk_in, const Abs& pre, int64_t now)
 {
     const bool pk = T_PEEK ? pk_in : false;
     Res        o1[RMAX], o2[RMAX];
@@ -61,6 +61,22 @@ static inline void range_vs_singles(C& c1, C& c2, int rmethod, const Ev* e, size
     REL_ALPHA(c2, a2);
     VF_P(18, 7, a_eq(a1, a2)); // exactly the effect of the singles (values, deadlines, counts, both orders)
     VF_P(18, 8, c1.size() == c2.size());
+#if T_PURGE
+    // C17, range forms: ut_map / ut_set purge at the start of every range call too: an entry of the pre-state whose
+    // deadline is <= now is gone afterwards, unless this very range insert re-wrote its key
+    for (size_t p = 0; p < AMAX; ++p)
+        if (p < pre.n && pre.d[p] <= now)
+        {
+            bool rewritten = false;
+            if (rmethod == RM_INSERT)
+                for (size_t i = 0; i < RMAX; ++i)
+                    if (i < n && e[i].k == pre.k[p])
+                        rewritten = true;
+            VF_P(17, 6, a_idx(a1, pre.k[p]) == NPOS || rewritten);
+        }
+#else
+    (void)pre; (void)now;
+#endif
     if (n1 > 0)
         VF_REACH(2);
 }
